@@ -117,6 +117,8 @@ type FuncVC struct {
 	errs         []string
 	withFrame    bool
 	isInit       bool
+	emitted      map[string]bool
+	dryGlobals   map[string]bool
 	safety       bool
 	entryFacts   []Term
 }
@@ -155,6 +157,7 @@ func (vc *FuncVC) reset(dry bool) {
 	vc.closureCells = nil
 	vc.errs = nil
 	vc.entryFacts = nil
+	vc.emitted = nil
 }
 
 func (vc *FuncVC) emit(f string, a ...any) {
@@ -169,7 +172,15 @@ func (vc *FuncVC) assume(guard, fact Term) {
 	if fact.S == "true" {
 		return
 	}
-	vc.emit("(assert %s)", Implies(guard, fact).S)
+	line := "(assert " + Implies(guard, fact).S + ")"
+	if vc.emitted == nil {
+		vc.emitted = map[string]bool{}
+	}
+	if vc.emitted[line] {
+		return
+	}
+	vc.emitted[line] = true
+	vc.emit(line)
 }
 
 func (vc *FuncVC) errorf(f string, a ...any) {
